@@ -736,8 +736,104 @@ func streamLife(c *Ctx) {
 	if left > 0 {
 		c.Fail("life-goroutine-leak", "all lifecycle scenarios finished and their servers closed", fmt.Sprintf("%d goroutines with connect-go frames remain", left), "goroutines started by the library remain after every call was closed")
 	}
-	// model-comparable anchor ops: the sticky-error model
-	for _, e := range []string{"canceled", "opaque", "ueof", "rst:CANCEL"} {
-		cflowOp(c, "cflow proto=connect point=prefix:2 err="+e)
+	// model-comparable ops: sequences of Receive calls over generated bodies (receiveMany)
+	r := c.Rng
+	n := 150
+	if c.Thorough() {
+		n = 3000
 	}
+	for i := 0; i < n; i++ {
+		proto := []string{"connect", "grpc", "grpcweb"}[r.Intn(3)]
+		var items []bodyItem
+		k := r.Intn(5)
+		for j := 0; j < k; j++ {
+			switch r.Intn(7) {
+			case 0:
+				items = append(items, bodyItem{kind: "f", data: []byte{0xEE, 1}}) // undecodable
+			case 1:
+				items = append(items, bodyItem{kind: "f", data: bytes.Repeat([]byte{7}, 260)}) // over the limit of 200
+			case 2:
+				items = append(items, bodyItem{kind: "f", flags: 0x40, data: []byte{1}}) // undefined flags
+			case 3:
+				items = append(items, bodyItem{kind: "f", flags: 1, data: []byte{3, 7}}) // compressed without encoding header
+			default:
+				items = append(items, bodyItem{kind: "f", data: genPayloadNoReject(r, 20)})
+			}
+		}
+		resp := &sresp{status: 200, header: hdr{"Content-Type": {ctFor(proto, "bidi", "raw")}}, trailer: hdr{}}
+		switch r.Intn(4) {
+		case 0: // no terminator
+		case 1: // error terminator
+			switch proto {
+			case "connect":
+				items = append(items, bodyItem{kind: "end", err: &wireErr{code: 9, msg: "x"}, header: hdr{}})
+			case "grpcweb":
+				items = append(items, bodyItem{kind: "web", header: hdr{"Grpc-Status": {"9"}}})
+			default:
+				resp.trailer = hdr{"Grpc-Status": {"9"}}
+			}
+		default:
+			switch proto {
+			case "connect":
+				items = append(items, bodyItem{kind: "end", header: hdr{}})
+			case "grpcweb":
+				items = append(items, bodyItem{kind: "web", header: hdr{"Grpc-Status": {"0"}}})
+			default:
+				resp.trailer = hdr{"Grpc-Status": {"0"}}
+			}
+		}
+		if r.Chance(20) { // messages after the terminator must never be delivered either
+			items = append(items, bodyItem{kind: "f", data: []byte{5}})
+		}
+		resp.body = items
+		rseqOp(c, fmt.Sprintf("rseq proto=%s max=200 n=%d hdr=%s body=%s trl=%s", proto, len(items)+3, showHdr(resp.header), showBody(resp.body), showHdr(resp.trailer)))
+	}
+}
+
+func genPayloadNoReject(r *Rng, maxLen int) []byte {
+	p := genPayload(r, maxLen)
+	if len(p) > 0 && p[0] == 0xEE {
+		p[0] = 1
+	}
+	return p
+}
+
+// rseqOp: K consecutive Receive calls on one bidi call over a structured body.
+func rseqOp(c *Ctx, op string) {
+	a := kvArgs(strings.Fields(op))
+	proto := a["proto"]
+	resp := &sresp{status: 200, header: parseHdr(a["hdr"]), body: parseBody(a["body"]), trailer: parseHdr(a["trl"])}
+	header, body, trailer := resp.serialize(proto)
+	var results []string
+	ans := safely(func() string {
+		hc := &staticClient{status: 200, header: header, trailer: trailer, body: body}
+		cl := connect.NewClient[[]byte, []byte](hc, "http://h/s/m", append(protoOpts(proto), connect.WithReadMaxBytes(atoi(a["max"])),
+			connect.WithAcceptCompression("rle", newRLEDecompressor, newRLECompressor))...)
+		s := cl.CallBidiStream(context.Background())
+		_ = s.CloseRequest()
+		for i := 0; i < atoi(a["n"]); i++ {
+			m, err := s.Receive()
+			switch {
+			case err == nil:
+				results = append(results, "ok:"+hx(*m))
+			case errors.Is(err, io.EOF):
+				results = append(results, "eof")
+			default:
+				results = append(results, fmt.Sprintf("fail:%d", connect.CodeOf(err)))
+			}
+		}
+		_ = s.CloseResponse()
+		return strings.Join(results, " ")
+	})
+	failed := false
+	for _, r := range results {
+		if !strings.HasPrefix(r, "ok:") {
+			failed = true
+		} else if failed {
+			c.Fail("life-receive-sticky", op, ans, "Receive delivered a message after an earlier Receive had reported an error or the end of the stream")
+			break
+		}
+	}
+	c.Count("rseq:" + proto)
+	c.Emit(op, ans, true)
 }
